@@ -83,8 +83,8 @@ Constructs == <<
   C("I17", "lit-array", "i", FALSE, FALSE, 0, TRUE, Ix(ALit(<<vA, vB, Num(5)>>), Num(2))),
   C("I18", "lit-nested", "i", TRUE, FALSE, 0, TRUE, Ix(Ix(Lit("[][]int", <<Lit("", <<Num(1)>>), Lit("", <<vA, vB>>)>>), Num(1)), Num(0))),
   C("I19", "slice-expr", "i", TRUE, FALSE, 0, TRUE, Ix(Slc(vSl, <<Num(1)>>, E0), Num(0))),
-  C("I20", "slice-expr", "i", TRUE, FALSE, 0, TRUE, Ix(Slc(vSl, E0, <<Num(2)>>), Num(1))),
-  C("I21", "slice-expr", "i", TRUE, FALSE, 0, TRUE, Ix(Slc(vSl, <<Num(0)>>, <<Num(1)>>), Num(0))),
+  C("I20", "slice-expr", "i", TRUE, FALSE, 0, TRUE, Len1(Slc(vSl, E0, <<Num(2)>>))),
+  C("I21", "slice-expr", "i", TRUE, FALSE, 0, TRUE, Bin("+", Len1(Slc(vSl, <<Num(1)>>, <<Num(2)>>)), Ix(Slc(vSl, <<Num(1)>>, <<Num(2)>>), Num(0)))),
   C("I22", "ifexpr", "i", FALSE, FALSE, 0, FALSE, IfX(Bin(">", vA, Num(1)), Num(10), Num(20))),
   C("I23", "lit-struct", "i", TRUE, TRUE, 0, TRUE, Sel(SLit(E0, <<vA, vB>>), "a")),
   C("I24", "method", "i", TRUE, TRUE, 0, TRUE, MCall(SLit(<<"a", "b">>, <<vA, Num(2)>>), "Sum", E0)),
@@ -202,9 +202,12 @@ Positions == <<
 >>
 NP == Len(Positions)
 
+Env0 == [v \in {"a", "b", "sl"} |-> CASE v = "a" -> VI(3) [] v = "b" -> VI(4) [] v = "sl" -> VL(<<5, 6, 7>>)]
 \* the statements of position p around the hole H (PH: the hole as an operand of a larger expression), ZS: statements (type "z")
 Stmts(p, H, ZS) ==
-  LET PH == Par(H) IN
+  LET PH == Par(H)
+      HV == EvE(H, Env0, Fns)        \* the value of the hole in the function's initial environment (used to write a matching literal)
+  IN
   CASE p = "PI1"  -> <<Def("x", H), O1(vX)>>
     [] p = "PI2"  -> <<Var(<<"x">>, "int", <<H>>), O1(vX)>>
     [] p = "PI3"  -> <<Var(<<"x">>, "", <<H>>), O1(vX)>>
@@ -221,7 +224,7 @@ Stmts(p, H, ZS) ==
     [] p = "PI14" -> <<Sw(E0, <<H>>, <<Cl(<<Num(7)>>, <<OS("seven")>>), Cl(<<Num(4), Num(6)>>, <<OS("4or6")>>), Cl(E0, <<OS("other")>>)>>)>>
     [] p = "PI15" -> <<Sw(<<Def("x", H)>>, <<vX>>, <<Cl(<<Num(7)>>, <<Out(<<S1("seven"), vX>>)>>), Cl(E0, <<Out(<<S1("other"), vX>>)>>)>>)>>
     [] p = "PI16" -> <<Sw(E0, E0, <<Cl(<<Bin(">", H, Num(5))>>, <<OS("big")>>), Cl(E0, <<OS("small")>>)>>)>>
-    [] p = "PI17" -> <<Sw(E0, <<Num(7)>>, <<Cl(<<Num(1), H>>, <<OS("hit")>>), Cl(E0, <<OS("miss")>>)>>)>>
+    [] p = "PI17" -> <<Sw(E0, <<Num(HV.i)>>, <<Cl(<<Num(0), H>>, <<OS("hit")>>), Cl(E0, <<OS("miss")>>)>>)>>    \* (the tag is H's value)
     [] p = "PI18" -> <<Def("r", FLC(E0, "int", <<Ret(<<H>>)>>, E0)), O1(Id("r"))>>
     [] p = "PI19" -> <<Defer(Call("fmt.Println", <<S1("d"), H>>)), OS("body")>>
     [] p = "PI20" -> <<Def("z", Num(0)), Try(<<O1(H), O1(Bin("/", PH, Id("z"))), OS("no")>>, "", <<OS("caught")>>)>>
@@ -270,7 +273,7 @@ Stmts(p, H, ZS) ==
     [] p = "PS2"  -> <<Def("x", H), O1(Bin("+", vX, S1("z")))>>
     [] p = "PS3"  -> <<If(E0, Bin("==", H, Str("dq", <<"a", "b">>)), <<OS("eq")>>, <<OS("ne")>>)>>
     [] p = "PS4"  -> <<Sw(E0, <<H>>, <<Cl(<<Str("dq", <<"a", "b">>)>>, <<OS("ab")>>), Cl(E0, <<OS("other")>>)>>)>>
-    [] p = "PS5"  -> <<Sw(E0, <<Str("dq", <<"a", "b">>)>>, <<Cl(<<S1("x"), H>>, <<OS("hit")>>), Cl(E0, <<OS("miss")>>)>>)>>
+    [] p = "PS5"  -> <<Sw(E0, <<Str("dq", HV.s)>>, <<Cl(<<S1("x"), H>>, <<OS("hit")>>), Cl(E0, <<OS("miss")>>)>>)>>
     [] p = "PS6"  -> <<Defer(Call("fmt.Println", <<H>>)), OS("body")>>
     [] p = "PS7"  -> <<Def("r", FLC(E0, "string", <<Ret(<<H>>)>>, E0)), O1(Id("r"))>>
     [] p = "PP1"  -> <<Def("x", H), Out(<<Sel(vX, "a"), Sel(vX, "b")>>)>>
@@ -303,7 +306,6 @@ Taken(cp) == \/ Tier = "t"
 Index == {cp \in Pairs : Taken(cp)}
 
 \* ------------------------------------------------------------------ one program
-Env0 == [v \in {"a", "b", "sl"} |-> CASE v = "a" -> VI(3) [] v = "b" -> VI(4) [] v = "sl" -> VL(<<5, 6, 7>>)]
 FName(cp) == "f_" \o Constructs[cp[1]].id \o "_" \o Positions[cp[2]].id
 Build(cp) ==
   LET c == Constructs[cp[1]]
